@@ -1674,3 +1674,160 @@ def gen_dimflags(lib_dir: str, header: str) -> str:
     out += "/-- the condition under which the constructor raises SyntaxError -/\ndef selfRef (d : DimExpr) : Bool := " + selfref + "\n\n"
     out += "end Dltype.Gen\n"
     return out
+
+
+# =====================================================================================================================
+# TensorTypeBase.__init__ / _parse_shape_string  ->  Generated/ShapeLoop.lean
+# =====================================================================================================================
+
+SHAPE_HEADER = """/-- what the loop of `_parse_shape_string` keeps on `self` and in its local set -/
+structure ShapeState where
+  parsed : List Nat := []            -- `_multiaxis_parsed` (a set of indices; every index is added at most once)
+  multiName : Option Name := none
+  multiIdx : Option Nat := none
+  anon : Bool := false
+  deriving Repr
+
+"""
+
+
+def gen_shapeloop(lib_dir: str, header: str) -> str:
+    with open(os.path.join(lib_dir, "_tensor_type_base.py")) as fh:
+        mod = ast.parse(fh.read(), filename="_tensor_type_base.py")
+    # ---- __init__ -------------------------------------------------------------------------------------------------
+    f = _find_method(mod, "TensorTypeBase", "__init__")
+    if _src(f.args) != "self, shape: str | None, *, optional: bool=False":
+        raise TErr(f"TensorTypeBase.__init__: parameters `{_src(f.args)}`")
+    b = [_src(s) for s in _strip(f.body)]
+    want = ["self.multiaxis_index: int | None = None", "self.anonymous_multiaxis: bool = False", "self.multiaxis_name: str | None = None", "self.optional = optional",
+            "self.expected_shape = self._parse_shape_string(shape)"]
+    if b[:5] != want or len(b) != 6:
+        raise TErr("TensorTypeBase.__init__: statements: " + " ; ".join(x[:50] for x in b))
+    lit = _strip(f.body)[5]
+    if not (isinstance(lit, ast.Assign) and _src(lit.targets[0]) == "self._literal_dims" and isinstance(lit.value, ast.Call) and _src(lit.value.func) == "tuple"
+            and isinstance(lit.value.args[0], ast.GeneratorExp)):
+        raise TErr("TensorTypeBase.__init__: `_literal_dims` is not a tuple(generator)")
+    ge = lit.value.args[0]
+    if not (_src(ge.elt) == "(idx, dim.evaluate({}))" and len(ge.generators) == 1 and _src(ge.generators[0].target) == "(idx, dim)"
+            and _src(ge.generators[0].iter) == "enumerate(self.expected_shape)" and len(ge.generators[0].ifs) == 1):
+        raise TErr(f"TensorTypeBase.__init__: `{_src(lit)[:160]}`")
+    cond_leaves = {"dim.is_literal": "d.isLiteral", "idx != self.multiaxis_index": "decide (mi ≠ some i)", "idx == self.multiaxis_index": "decide (mi = some i)",
+                   "dim.is_identifier": "d.isIdentifier", "dim.is_anonymous": "d.isAnonymous"}
+
+    def cexpr(e):
+        if isinstance(e, ast.BoolOp):
+            return "(" + (" && " if isinstance(e.op, ast.And) else " || ").join(cexpr(v) for v in e.values) + ")"
+        if isinstance(e, ast.UnaryOp) and isinstance(e.op, ast.Not):
+            return f"(!{cexpr(e.operand)})"
+        t = cond_leaves.get(_src(e))
+        if t is None:
+            raise TErr(f"TensorTypeBase.__init__: condition `{_src(e)}`")
+        return t
+
+    lit_cond = cexpr(ge.generators[0].ifs[0])
+
+    # ---- _parse_shape_string ---------------------------------------------------------------------------------------
+    g = _find_method(mod, "TensorTypeBase", "_parse_shape_string")
+    gb = _strip(g.body)
+    heads = [_src(s) for s in gb[:5]]
+    want = ["if shape_string is None:\n    return ()", "split_shape = shape_string.split()", None, "processed_shapes: list[_parser.DLTypeDimensionExpression] = []", "_multiaxis_parsed: set[int] = set()"]
+    for k, w in enumerate(want):
+        if w is not None and heads[k] != w:
+            raise TErr(f"_parse_shape_string: statement {k}: `{heads[k][:100]}`")
+    emp = gb[2]
+    if not (isinstance(emp, ast.If) and _src(emp.test) == "not split_shape" and not emp.orelse and isinstance([x for x in emp.body if not isinstance(x, ast.Assign)][0], ast.Raise)):
+        raise TErr("_parse_shape_string: the empty-shape test")
+    if not (len(gb) == 8 and isinstance(gb[5], ast.For) and isinstance(gb[6], ast.If) and _src(gb[7]) == "return tuple(processed_shapes)"):
+        raise TErr("_parse_shape_string: expected the loop, the marker-count test, `return tuple(processed_shapes)`")
+    loop = gb[5]
+    if not (_src(loop.target) == "(i, dim_str)" and _src(loop.iter) == "enumerate(split_shape)" and not loop.orelse):
+        raise TErr("_parse_shape_string: the loop is not `for i, dim_str in enumerate(split_shape)`")
+    lb = loop.body
+    if not (len(lb) == 4 and _src(lb[0]) == "expression = _parser.expression_from_string(dim_str)" and isinstance(lb[1], ast.If) and not lb[1].orelse
+            and isinstance(lb[2], ast.AugAssign) and _src(lb[3]) == "processed_shapes.append(expression)"):
+        raise TErr("_parse_shape_string: loop body: " + " ; ".join(_src(x)[:50] for x in lb))
+    eleaves = {"expression.is_named_multiaxis": "d.isNamedMultiaxis", "expression.is_anonymous": "d.isAnonymous"}
+
+    def eexpr(e):
+        if isinstance(e, ast.BoolOp):
+            return "(" + (" && " if isinstance(e.op, ast.And) else " || ").join(eexpr(v) for v in e.values) + ")"
+        if isinstance(e, ast.UnaryOp) and isinstance(e.op, ast.Not):
+            return f"(!{eexpr(e.operand)})"
+        t = eleaves.get(_src(e))
+        if t is None:
+            raise TErr(f"_parse_shape_string: condition `{_src(e)}`")
+        return t
+
+    mcond = eexpr(lb[1].test)
+    upd = {"parsed": "st.parsed", "multiName": "st.multiName", "multiIdx": "st.multiIdx"}
+    for s in lb[1].body:
+        t = _src(s)
+        if t == "_multiaxis_parsed.add(i)":
+            upd["parsed"] = "(if st.parsed.contains i then st.parsed else st.parsed ++ [i])"
+        elif isinstance(s, ast.Assign) and _src(s.targets[0]) == "self.multiaxis_name" and isinstance(s.value, ast.IfExp) and _src(s.value.body) == "expression.identifier" \
+                and isinstance(s.value.orelse, ast.Constant) and s.value.orelse.value is None:
+            upd["multiName"] = f"(if {eexpr(s.value.test)} then some d.identifier else none)"
+        elif t == "self.multiaxis_index = i":
+            upd["multiIdx"] = "some i"
+        else:
+            raise TErr(f"_parse_shape_string: statement `{t}` in the marker branch")
+    au = lb[2]
+    if not (_src(au.target) == "self.anonymous_multiaxis" and isinstance(au.op, ast.BitOr)):
+        raise TErr(f"_parse_shape_string: `{_src(au)}`")
+    anon_upd = f"(st.anon || {eexpr(au.value)})"
+    cnt = gb[6]
+    if not (isinstance(cnt.test, ast.Compare) and _src(cnt.test.left) == "len(_multiaxis_parsed)" and len(cnt.test.ops) == 1 and isinstance(cnt.test.comparators[0], ast.Constant)
+            and not cnt.orelse and isinstance([x for x in cnt.body if not isinstance(x, ast.Assign)][0], ast.Raise)):
+        raise TErr("_parse_shape_string: the marker-count test")
+    sym = {ast.Gt: ">", ast.GtE: "≥", ast.NotEq: "≠", ast.Eq: "=", ast.Lt: "<", ast.LtE: "≤"}.get(type(cnt.test.ops[0]))
+    if sym is None:
+        raise TErr("_parse_shape_string: the marker-count comparison")
+
+    out = header
+    out += "import DltypeModel.Shape\nset_option linter.unusedVariables false\nnamespace Dltype.Gen\nopen Dltype\n\n"
+    out += SHAPE_HEADER
+    out += "/-- the body of the loop of `_parse_shape_string` after `expression_from_string(dim_str)` returned `d` -/\n"
+    out += "def shapeStep (i : Nat) (d : DimExpr) (st : ShapeState) : ShapeState :=\n"
+    out += f"  let st : ShapeState := if {mcond} then {{ st with parsed := {upd['parsed']}, multiName := {upd['multiName']}, multiIdx := {upd['multiIdx']} }} else st\n"
+    out += f"  {{ st with anon := {anon_upd} }}\n\n"
+    out += f"""/-- loop skeleton (fixed text): `for i, dim_str in enumerate(split_shape)`; the first dimension that does not parse ends everything -/
+def shapeLoop : List (List Char) → Nat → ShapeState → List DimExpr → Except ParseErr (ShapeState × List DimExpr)
+  | [], _, st, acc => .ok (st, acc)
+  | s :: rest, i, st, acc =>
+    match parseDim s with
+    | .error e => .error e
+    | .ok d => shapeLoop rest (i + 1) (shapeStep i d st) (acc ++ [d])
+
+/-- the filter of the `_literal_dims` comprehension -/
+def literalKept (mi : Option Nat) (i : Nat) (d : DimExpr) : Bool := {lit_cond}
+
+/-- comprehension skeleton (fixed text): `(idx, dim.evaluate({{}})) for idx, dim in enumerate(expected_shape) if ...`;
+    an evaluation that raises ends the constructor with that exception -/
+def literalDims : List DimExpr → Nat → Option Nat → Except PyExc (List (Nat × Int))
+  | [], _, _ => .ok []
+  | d :: ds, i, mi =>
+    if literalKept mi i d then
+      match d.evaluate [] with
+      | .val v => (literalDims ds (i + 1) mi).map (fun r => (i, v) :: r)
+      | .pyExc e => .error e
+      | _ => .error .typeError
+    else literalDims ds (i + 1) mi
+
+/-- `TensorTypeBase(shape, optional=...)` -/
+def construct (shape : Option (List Char)) (cls : Nat) (optional : Bool) : Except ShapeErr Ann :=
+  match shape with
+  | none => .ok {{ dims := [], cls, optional }}
+  | some s =>
+    let split_shape := splitWs s []
+    if split_shape.isEmpty then .error (.parse .syntax) else
+    match shapeLoop split_shape 0 {{}} [] with
+    | .error e => .error (.parse e)
+    | .ok (st, dims) =>
+      if decide (st.parsed.length {sym} {cnt.test.comparators[0].value}) then .error (.parse .syntax) else
+      match literalDims dims 0 st.multiIdx with
+      | .error e => .error (.py e)
+      | .ok lits => .ok {{ dims, multiIdx := st.multiIdx, multiName := st.multiName, anonMulti := st.anon, literalDims := lits, cls, optional }}
+
+end Dltype.Gen
+"""
+    return out
